@@ -2,7 +2,7 @@
    name.  This is what is extracted; the correspondence harness calls these
    and nothing else. *)
 From AK Require Import Base.Prelude Base.Sx Bytes.Text Bytes.FabHeader Bytes.BinFile
-  Reader.Select Reader.BoxRead Reader.Level Plotfile.TextHeader Taste.Taste Reader.ReadSpec Plotfile.Abstract Writers.Colander Writers.ColanderSpec Writers.Combine Writers.CombineSpec Writers.Chef Writers.Chk2plt Writers.ChkHeader Writers.Chk2pltTool Writers.ChefToolProofs Writers.FullPipeline Writers.GoodB
+  Reader.Select Reader.BoxRead Reader.Level Plotfile.TextHeader Taste.Taste Reader.ReadSpec Plotfile.Abstract Writers.Colander Writers.ColanderSpec Writers.Combine Writers.CombineSpec Writers.Chef Writers.Chk2plt Writers.ChkHeader Writers.Chk2pltTool Writers.Chk2pltToolProofs Writers.ChefToolProofs Writers.FullPipeline Writers.GoodB
   Array.Paint Mandoline.Plate Mandoline.Slice3D Mandoline.SlicePlot Whip.Whip Pestle.Pestle Point.PointQuery Menu.Menu Paths.Posix.
 
 Definition as_Zs := as_list as_Z.
@@ -626,6 +626,44 @@ Definition e_chk2plt_tool (s : sx) : sx :=
   | _ => bad_request
   end.
 
+(* ---- C17: the SPECIFICATION side of the whole conversion (theorems C17_tool, C17_tool_output_good).  request: (text wholes
+   toints frepr dx_rows bounds species do_gradp do_ir levels), levels = list of (state_level gradp_files gradp_cells ir_files
+   ir_cells comps), state_level = the ghosted state FABs with their file layout, comps = per box the components the converted
+   box must hold (computed by the harness's oracle) -> (checkpoint Header printed back from the parsed record, per level the
+   state files and (file, offset) table of the abstract level, pf_disk (conv_pf c), goodb (conv_pf c)) ---- *)
+Definition dec_chk_alevel (s : sx) : option chk_alevel :=
+  match s with
+  | SL [st; gf; gc; rf; rc; comps] =>
+      do st <- dec_level st; do gf <- dec_disk gf; do gc <- dec_cells gc; do rf <- dec_disk rf; do rc <- dec_cells rc;
+      do comps <- as_list as_Bs comps;
+      Some {| al_state := st; al_gradp_files := gf; al_gradp_cells := gc; al_ir_files := rf; al_ir_cells := rc;
+              al_comps := fun i => nth i comps [] |}
+  | _ => None
+  end.
+
+Definition e_chk2plt_spec (s : sx) : sx :=
+  match s with
+  | SL [t; wholes; toints; frepr; dxrows; bnds; species; dg; di; levels] =>
+      req (do t <- as_text t; do w <- as_Bs wholes; do ti <- as_list (as_pair as_B as_Z) toints;
+           do fr <- as_list (as_pair as_B as_B) frepr; do dx <- as_list as_Bs dxrows;
+           do bd <- as_list (as_list (as_list (as_pair as_B as_B))) bnds;
+           do species <- as_Bs species; do dg <- as_bool dg; do di <- as_bool di;
+           do levels <- as_list dec_chk_alevel levels;
+           Some (t, w, ti, fr, dx, bd, species, dg, di, levels))
+          (fun '(t, w, ti, fr, dx, bd, species, dg, di, levels) =>
+             of_result (fun x => x)
+               (match p_chk (fun x => mem x w) (tbl_Z ti) t with
+                | Some (h, _) =>
+                    let c := {| ac_h := h; ac_levels := levels |} in
+                    let pf := conv_pf (tbl_B fr) (fun lv => nth (Z.to_nat lv) dx []) (fun lv => nth (Z.to_nat lv) bd []) species dg di c in
+                    Some (SL [enc_text (print_chk h);
+                              of_list (fun al => SL [enc_disk (lv_disk (al_state al)); enc_cells (cells_or_nil (al_state al))]) levels;
+                              enc_pdisk (pf_disk pf);
+                              SZ (if goodb pf then 1 else 0)])
+                | None => None end))
+  | _ => bad_request
+  end.
+
 (* ---- C07: mandoline 3D slice (array output) ----
    request: (levels limit cn P dom_lo dom_hi ncomp nx ny), levels = lists of (lo hi (component bytes ...));
    result: (left right), each a list over pixels (x major) of () or ((words...) normal level) *)
@@ -759,6 +797,7 @@ Definition entries : list (string * (sx -> sx)) :=
     ("chk_header", e_chk_header);
     ("chk_written", e_chk_written);
     ("chk2plt_tool", e_chk2plt_tool);
+    ("chk2plt_spec", e_chk2plt_spec);
     ("slice3d", e_slice3d);
     ("menu", e_menu);
     ("minuterie", e_minuterie);
